@@ -272,7 +272,9 @@ def handleVerify (prog : String) : String :=
   | none => "bad-op"
   | some p =>
     let r := vres (Verifier.check p)
-    -- the declarative oracle is quadratic in the worst case; evaluated for programs up to 4096 slots
-    if p.size ≤ 8 * 4096 then r ++ " | spec=" ++ (if decide (WellFormed p) then "ok" else "err") else r
+    -- the declarative oracle is quadratic in the number of jumps and calls (membership of the target in the list of instruction
+    -- starts); evaluated for programs up to 4096 slots and for longer ones with at most 64 jumps / calls (the length-limit cases)
+    let jumps := (List.range (p.size / 8)).foldl (fun n k => if WF.isJump (p.getD (8 * k) 0) || WF.isCall (p.getD (8 * k) 0) then n + 1 else n) 0
+    if p.size ≤ 8 * 4096 || jumps ≤ 64 then r ++ " | spec=" ++ (if decide (WellFormed p) then "ok" else "err") else r
 
 end Rbpf.Drive
